@@ -84,7 +84,7 @@ Apply(x, e) ==
     [] e.c = "EnvTcp"         -> IF x.st.pc = "tcp" /\ x.st.wake = "none" THEN {EnvTcp(x, e.a.res)} ELSE {}
     [] e.c = "UserFinish"     -> IF x.st.out = "ok" /\ x.fi.out = "idle" THEN {UserFinish(x, e.a.login)} ELSE {}
     [] e.c = "EnvHandshake"   -> IF x.cfg.noise /\ x.fh = "made" /\ ~x.cm /\ x.tr = "open"
-                                 THEN {EnvHandshake(x, e.a.res)} ELSE {}
+                                 THEN {EnvHandshakeChunk(x, e.a.res, e.a.ms)} ELSE {}
     [] e.c = "EnvChunk"       -> IF CanReceive(x) THEN {EnvChunk(x, e.a.ms)} ELSE {}
     [] e.c = "EnvEof"         -> IF x.tr = "open" /\ ~x.cm THEN {EnvEof(x)} ELSE {}
     [] e.c = "EnvReset"       -> IF x.tr = "open" /\ ~x.cm THEN {EnvReset(x)} ELSE {}
